@@ -52,6 +52,10 @@ def descriptions(tier, seed):
             spare = dict(d["protocols"][0], name="spare_dbg")
             d["protocols"].append(spare)
             out.append((d, dict(t, topo="spare-protocol")))
+    # degenerate widths: a single-column / single-row XY mesh has a zero-bit coordinate field; the query must answer with
+    # the width the emitted typedef embodies
+    for (m, n) in ((1, 3), (3, 1)):
+        out.append(families.mesh(rng, m, n, "XY", False))
     # an endpoint coordinate offset written as a mapping: the mapping-key permutations must not change what it means
     d, t = families.mesh(rng, 2, 2, "XY", False, sides=("W",))
     if d is not None:
@@ -202,7 +206,9 @@ def run(tier, seed, rep, replay=None):
         for expr, want in queries(d, nl[i]):
             qjobs.append({"yaml_text": yamlout.text(d), "stdout": True, "args": ["-q", expr]}); qmeta.append((i, expr, want))
     if tier == "quick":
-        keep = sorted(rng.sample(range(len(qjobs)), min(len(qjobs), 60)) + [k for k, m in enumerate(qmeta) if descs[m[0]][1].get("topo") == "names-extend"])
+        keep = sorted(rng.sample(range(len(qjobs)), min(len(qjobs), 60)) + [k for k, m in enumerate(qmeta) if descs[m[0]][1].get("topo") == "names-extend"
+                                                                                 or (m[1].startswith("routing.") and not str(descs[m[0]][1].get("topo", "")).startswith("example:"))])
+        keep = sorted(set(keep))
         qjobs, qmeta = [qjobs[k] for k in keep], [qmeta[k] for k in keep]
     qres = common.run_worker("worker_cli", qjobs, shards=8)
     for (i, expr, want), r in zip(qmeta, qres):
